@@ -43,6 +43,8 @@ def cases(tier, seed):
         yield dict(kind='file', forecasts=chunk)
     for chunk in space.chunks(fcs, 12):
         yield dict(kind='resample', forecasts=chunk)
+    # calibration test: every sub-sequence (length 1..4) of a fixed family of six evaluation results (one of them not-valid)
+    yield dict(kind='calibration')
     if tier == 'thorough':
         f3 = [[a, b, c] for a in cats for b in cats for c in cats]
         for chunk in space.chunks(f3[::3], 8):
@@ -366,6 +368,43 @@ def run_case(case):
                 evals += run_resample(forecast, obs_types, reg, origins, mags, failures, hsh)
                 states += 1
                 nontriv += 1
+    elif k == 'calibration':
+        from csep.core import catalog_evaluations as ce
+        family = [([[0], [0, 1], []], [0]), ([[2, 3], [4]], [2, 2]), ([[5], [5, 5], [1]], [5]), ([[0, 0], [1, 1]], []),
+                  ([[3], [], [3, 4]], [3, 4]), ([[1, 2], [2]], [1])]
+        made = []
+        for fc_types, ob in family:
+            fc = mem_forecast(fc_types, reg, origins, mags)
+            obs = fixtures.catalog(events(ob, origins, mags, 500), region=reg, name='obs')
+            made.append((ce.magnitude_test(fc, obs, verbose=False), ce.number_test(fc, obs, verbose=False)))
+        for n in range(1, 5):
+            for idxs in itertools.permutations(range(len(family)), n) if n <= 2 else itertools.combinations(range(len(family)), n):
+                for which in (0, 1):
+                    for d1 in (False, True):
+                        results = [made[i][which] for i in idxs]
+                        valid = [r for r in results if r.status != 'not-valid']
+                        rep = dict(kind='calibration')
+                        states += 1
+                        nontriv += (len(valid) < len(results))
+                        if not valid:
+                            continue
+                        try:
+                            res = ce.calibration_test(results, delta_1=d1)
+                        except Exception as e:
+                            failures.append(Fail(f'catalog_evaluations.calibration_test|{type(e).__name__}|any', f'{type(e).__name__}: {e} results={idxs} which={which}', rep))
+                            continue
+                        evals += 1
+                        q = sorted(float(r.quantile[0 if d1 else 1]) for r in valid)
+                        m = len(q)
+                        ks = max(max((i + 1) / m - v, v - i / m) for i, v in enumerate(q))
+                        got_q = sorted(float(x) for x in res.test_distribution)
+                        hsh.update(repr((got_q, float(res.observed_statistic))).encode())
+                        if got_q != q:
+                            failures.append(Fail('catalog_evaluations.calibration_test|quantiles-used-differ-from-valid-results|any',
+                                                 f'test_distribution {got_q} but the valid results carry {q} (delta_1={d1})', rep))
+                        elif abs(float(res.observed_statistic) - ks) > 1e-12:
+                            failures.append(Fail('catalog_evaluations.calibration_test|ks-statistic-differs|any',
+                                                 f'observed_statistic {res.observed_statistic} vs sup-distance to uniform {ks} for quantiles {q}', rep))
     elif k == 'single':
         forecast, obs_types = case['forecast'], case['obs']
         tag = case.get('storage', 'mem')
